@@ -355,10 +355,21 @@ pub fn node_name(i: usize) -> String {
 impl NetWorld {
     /// fresh nodes, nobody knows anybody; process ids ascending = n1 is the oldest
     pub fn new(n: usize, pids: &[u128]) -> NetWorld {
+        NetWorld::new_clocked(n, pids, false)
+    }
+
+    /// shared_clock = all nodes read one logical clock (synchronised wall clocks: op ids of
+    /// different nodes are comparable, as the catch-up protocol assumes)
+    pub fn new_clocked(n: usize, pids: &[u128], shared_clock: bool) -> NetWorld {
         let mut nodes = vec![];
         let mut names = vec![];
+        let shared = Arc::new(std::sync::atomic::AtomicU64::new(1_000_000_000_000));
         for i in 0..n {
-            let ctx = NodeCtx::new(fresh_dir(&format!("net-n{}", i + 1)), (i as u64 + 1) * 1_000_000_000_000);
+            let ctx = if shared_clock {
+                NodeCtx::with_clock(fresh_dir(&format!("net-n{}", i + 1)), shared.clone())
+            } else {
+                NodeCtx::new(fresh_dir(&format!("net-n{}", i + 1)), (i as u64 + 1) * 1_000_000_000_000)
+            };
             ctx.virtual_sleep.store(true, Ordering::SeqCst);
             let node = Node::start(ctx, &node_name(i), pids[i]);
             let loops = Loops::new(&node);
@@ -511,13 +522,22 @@ impl NetWorld {
                 }
             }
         }
-        let msgs_pending = !self.message_transitions().is_empty();
+        // the short `join` connections a starting node opens are protocol traffic too
+        let msgs_pending = !self.message_transitions().is_empty() || self.clients.iter().any(|c| c.eof_at_end && !c.done && self.nodes[c.node].alive);
         for (name, node, site) in self.parked() {
-            // the fixed sleeps (initial 1 s, grace 100 ms) and the poll loops
+            if site_is_initial_sleep(&site) {
+                // the 1 s start-up sleep is as long as the election timeout: messages are faster
+                if !msgs_pending {
+                    v.push(T::Timeout(name));
+                }
+                continue;
+            }
+            // the 100 ms grace sleep may end at any time; a poll loop iteration is worth taking
+            // when the node's state changed since the waiter last looked
             if self.nodes[node].changed || site_is_fixed_sleep(&site) {
                 v.push(T::Wake(name.clone()));
             }
-            if !msgs_pending {
+            if !msgs_pending && !site_is_fixed_sleep(&site) {
                 // a timer runs out only when no message can be delivered any more
                 v.push(T::Timeout(name));
             }
@@ -812,17 +832,26 @@ pub fn site_is_fixed_sleep(site: &str) -> bool {
 }
 
 pub static FIXED_SLEEP_LINES: Mutex<Vec<u32>> = Mutex::new(Vec::new());
+pub static INITIAL_SLEEP_LINES: Mutex<Vec<u32>> = Mutex::new(Vec::new());
+
+pub fn site_is_initial_sleep(site: &str) -> bool {
+    INITIAL_SLEEP_LINES.lock().unwrap().iter().any(|l| site.ends_with(&format!(":{}", l)))
+}
 
 /// find the line numbers of the two fixed sleeps in /repo's election_ops.rs (they move with edits)
 pub fn init_sleep_sites() {
     let src = std::fs::read_to_string("/repo/src/lib/election_ops.rs").unwrap_or_default();
     let mut v = vec![];
+    let mut init = vec![];
     for (i, line) in src.lines().enumerate() {
-        if line.contains("thread::sleep") && (line.contains("from_millis(1000)") || line.contains("from_millis(100)")) {
+        if line.contains("thread::sleep") && line.contains("from_millis(1000)") {
+            init.push(i as u32 + 1);
+        } else if line.contains("thread::sleep") && line.contains("from_millis(100)") {
             v.push(i as u32 + 1);
         }
     }
     *FIXED_SLEEP_LINES.lock().unwrap() = v;
+    *INITIAL_SLEEP_LINES.lock().unwrap() = init;
 }
 
 /// rename every op id (numbers >= 10^12, the per-node logical clocks) by its rank among the ids
@@ -879,8 +908,12 @@ pub fn canon_ids(s: &str) -> String {
 /// Bring up an n-node cluster through the real join path with a fixed delivery policy and check
 /// that it is settled (n1 primary, the others secondary, everybody knows everybody).
 pub fn settled_cluster(n: usize) -> Result<NetWorld, String> {
+    settled_cluster_clocked(n, false)
+}
+
+pub fn settled_cluster_clocked(n: usize, shared_clock: bool) -> Result<NetWorld, String> {
     let pids: Vec<u128> = (0..n).map(|i| 100 + i as u128).collect();
-    let mut w = NetWorld::new(n, &pids);
+    let mut w = NetWorld::new_clocked(n, &pids, shared_clock);
     // n1 starts alone: its join thread finds nobody and wins
     let jw = Worker::spawn("join-n1", &w.nodes[0].node, false);
     w.nodes[0].join_worker = Some(jw);
@@ -1086,4 +1119,53 @@ pub fn explore_net(
 
 pub fn path_str(p: &[T]) -> Vec<String> {
     p.iter().map(|t| format!("{:?}", t)).collect()
+}
+
+impl NetWorld {
+    /// node i (dead) starts again from its data directory (or from an empty one), as main.rs does
+    pub fn restart_node(&mut self, i: usize, wipe_disk: bool, pid: u128) -> Result<(), String> {
+        if self.nodes[i].alive {
+            return Err("restart of a live node".into());
+        }
+        let ctx = self.nodes[i].node.ctx.clone();
+        // the old process is gone: forget it in the registry, release its parked link threads
+        self.nodes[i].node.shutdown();
+        ctx.shutdown.store(false, Ordering::SeqCst);
+        if wipe_disk {
+            let _ = std::fs::remove_dir_all(&ctx.dir);
+            std::fs::create_dir_all(&ctx.dir).map_err(|e| e.to_string())?;
+        }
+        let name = self.names[i].clone();
+        let r = std::panic::catch_unwind(std::panic::AssertUnwindSafe(|| Node::start(ctx, &name, pid)));
+        let node = match r {
+            Ok(n) => n,
+            Err(e) => return Err(format!("start-up of {} panicked: {} at {:?}", name, panic_msg(&e), take_panic_loc())),
+        };
+        let loops = Loops::new(&node);
+        let seen = node.ctx.links.lock().unwrap().len();
+        self.nodes[i] = NNode { node, loops, repl_q: VecDeque::new(), sup_q: VecDeque::new(), alive: true, changed: false, links_seen: seen, join_worker: None };
+        Ok(())
+    }
+
+    /// what main.rs does after start-up: ask every peer to let us join, then the initial election
+    pub fn join_cluster(&mut self, i: usize) -> Result<(), String> {
+        for p in 0..self.nodes.len() {
+            if p != i && self.nodes[p].alive {
+                self.add_client(p, &[&format!("auth {} {}", USER, PWD), &format!("join {}", node_name(i)), "<eof>"], true);
+            }
+        }
+        let jw = Worker::spawn(&format!("join-n{}-{}", i + 1, self.steps), &self.nodes[i].node, false);
+        self.nodes[i].join_worker = Some(jw);
+        self.nodes[i].join_worker.as_ref().unwrap().run(WCmd::InitialElection)?;
+        self.pump();
+        Ok(())
+    }
+
+    pub fn run_snapshot_queues(&mut self) {
+        for n in self.nodes.iter() {
+            if n.alive {
+                n.node.run_snapshot_queue();
+            }
+        }
+    }
 }
